@@ -9,6 +9,7 @@ in `Properties/C06.lean` are about the same definitions over any commutative sem
 -/
 import Mahotas.Model.Border
 import Mahotas.Model.DType
+import Mahotas.Generated.Edge
 namespace Mahotas.C06
 open Mahotas
 
@@ -187,6 +188,39 @@ def laplacianWeightsG (ofNat : Nat → K) (alpha : K) : Array K :=
 
 end laplacian
 
+/-! ### `edge.py` (round 4): `sobel` and `dog`, built from the C06 kernels
+
+The filter tables are `Generated.hsobelNum` / `vsobelNum` / `…Div` / `…Shape`, regenerated from `edge.py` by
+`translator/tables.py` on every run. -/
+
+section edge
+variable {K : Type} [Add K] [Sub K] [Mul K] [Div K] [Zero K]
+
+/-- `np.array([[…]])/8.`: every numerator over the divisor -/
+def sobelWeightsG (ofInt : Int → K) (num : List Int) (div : Nat) : Array K :=
+  (num.map fun n => ofInt n / ofInt (div : Int)).toArray
+
+/-- the two linear responses of `sobel`: `vfiltered = convolve(img, _vsobel_filter, mode='nearest')` and
+`hfiltered = convolve(img, _hsobel_filter, mode='nearest')` (generic kernel, float64 image: no cast) -/
+def sobelLinearG (isZero : K → Bool) (ofInt : Int → K) (f : Img K) : List K × List K :=
+  let wv := sobelWeightsG ofInt Generated.vsobelNum Generated.vsobelDiv
+  let wh := sobelWeightsG ofInt Generated.hsobelNum Generated.hsobelDiv
+  ((allPos f.shape).map fun p => convAcc .nearest f (support isZero Generated.vsobelShape wv) p,
+   (allPos f.shape).map fun p => convAcc .nearest f (support isZero Generated.hsobelShape wh) p)
+
+/-- `sobel(img, just_filter=True)` after the normalisation: `vfiltered**2 + hfiltered**2` -/
+def sobelFilteredG (isZero : K → Bool) (ofInt : Int → K) (f : Img K) : List K :=
+  let vh := sobelLinearG isZero ofInt f
+  List.zipWith (fun v h => v * v + h * h) vh.1 vh.2
+
+/-- `dog(img, sigma1, multiplier, just_filter=True)`: `G2 - G1`, both `gaussian_filter(img, σ, mode='nearest')` with the
+per-axis weights `w1`, `w2` (float64: identity cast) -/
+def dogG (isZero : K → Bool) (f : Img K) (w1 w2 : Nat → Array K) : List K :=
+  List.zipWith (fun g2 g1 => g2 - g1) (gaussianFilterG id isZero .nearest f w2).data.toList
+    (gaussianFilterG id isZero .nearest f w1).data.toList
+
+end edge
+
 /-! ### Float instantiation: dtype casts, Gaussian weights, driver -/
 
 /-- C++ `T(cur)` / numpy `astype` for the value ranges the check uses (results inside the dtype range):
@@ -199,6 +233,55 @@ def castTo (dt : String) (x : Float) : Float :=
   | _ => if x < 0 then x.ceil else x.floor
 
 def fIsZero (x : Float) : Bool := x == 0
+
+/-! ### the C cast `static_cast<T>(double)` with its domain (round 4)
+
+[conv.fpint]: a floating value converted to an integer type is truncated toward zero; the behaviour is UNDEFINED when
+the truncated value cannot be represented in `T` (the docstring of `convolve` documents it). Polymorphic in the scalars
+(`floor`/`ceil` abstract) so that the theorems (`C06_cast_in_range`) speak about the definition the driver runs at `Float`. -/
+
+/-- truncation toward zero -/
+def truncG {α : Type} [LT α] [DecidableRel (α := α) (· < ·)] (floor ceil : α → α) (zero x : α) : α :=
+  if x < zero then ceil x else floor x
+
+/-- `static_cast<T>(x)` for an integer type with the values `lo ≤ v < hi1`: `some` of the truncated value when it is
+representable, `none` where the C++ standard leaves the conversion undefined (also NaN at `Float`: every comparison is
+false). -/
+def castIntG {α : Type} [LT α] [LE α] [DecidableRel (α := α) (· < ·)] [DecidableRel (α := α) (· ≤ ·)]
+    (floor ceil : α → α) (zero lo hi1 x : α) : Option α :=
+  let t := truncG floor ceil zero x
+  if lo ≤ t ∧ t < hi1 then some t else none
+
+/-- `(lo, hi + 1)` of the integer dtypes (both exactly representable doubles); `none` for `f64`, `f32`, `b1`, whose
+conversions from double are defined for every value (`bool`: `x != 0`) -/
+def dtBounds : String → Option (Float × Float)
+  | "u8" => some (0, 256)
+  | "u16" => some (0, 65536)
+  | "u32" => some (0, 4294967296)
+  | "u64" => some (0, 18446744073709551616)
+  | "i8" => some (-128, 128)
+  | "i16" => some (-32768, 32768)
+  | "i32" => some (-2147483648, 2147483648)
+  | "i64" => some (-9223372036854775808, 9223372036854775808)
+  | _ => none
+
+/-- is the conversion of the accumulator `x` to the dtype defined by the C++ standard? Exactly the cells where this is
+`false` are excluded from the comparison with the real code. -/
+def castDefined (dt : String) (x : Float) : Bool :=
+  match dtBounds dt with
+  | none => true
+  | some (lo, hi1) => (castIntG Float.floor Float.ceil 0 lo hi1 x).isSome
+
+/-- `weights.astype(f.dtype)`: numpy's cast is the same C conversion, so a weight whose truncation is not representable
+(a negative weight for an unsigned image, 300 for `uint8`) puts the whole call outside the documented domain -/
+def weightsDefined (dt : String) (w : Array Float) : Bool := w.all (castDefined dt)
+
+def showDefined (xs : List Bool) : String := ",".intercalate (xs.map fun b => if b then "1" else "0")
+
+/-- per pixel: is the cast of the accumulator of `convolve` defined? -/
+def convolveDefined (dt : String) (m : Mode) (f : Img Float) (wshape : List Nat) (w : Array Float) : List Bool :=
+  let wc := w.map (castTo dt)
+  (allPos f.shape).map fun p => castDefined dt (convSpec m f wshape wc p)
 
 def mkImg (shape : List Nat) (xs : List Float) : Img Float := { shape := shape, data := xs.toArray }
 
@@ -239,6 +322,25 @@ def gaussianFilterModel (dt : String) (m : Mode) (f : Img Float) (contig : Bool)
   (gaussianFilterG (castTo dt) fIsZero m f fun ax =>
     (gaussWeights (sigmas.getD ax 1.0) (orders.getD ax 0)).map (castTo dt)).data.toList
 
+/-- the Python argument `sigma` / `order` of `gaussian_filter`: a scalar or a sequence (list, tuple) -/
+inductive SeqArg (α : Type) where
+  | scalar (v : α)
+  | seq (vs : List α)
+
+/-- `_normalize_sequence(array, value, fname)` (`internal.py`): a scalar is repeated once per dimension; a sequence must have
+one element per dimension, otherwise `ValueError` (`none`) -/
+def normalizeSeq {α : Type} (ndim : Nat) : SeqArg α → Option (List α)
+  | .scalar v => some (List.replicate ndim v)
+  | .seq vs => if vs.length = ndim then some vs else none
+
+/-- `gaussian_filter(array, sigma, order, mode)` from its Python arguments: both are normalised, then one
+`gaussian_filter1d` pass per axis with `sigmas[axis]`, `orders[axis]` (`none` = the `ValueError` of `_normalize_sequence`) -/
+def gaussianFilterPy (dt : String) (m : Mode) (f : Img Float) (sigma : SeqArg Float) (order : SeqArg Nat) :
+    Option (List Float) :=
+  match normalizeSeq f.shape.length order, normalizeSeq f.shape.length sigma with
+  | some os, some ss => some (gaussianFilterModel dt m f true ss os)
+  | _, _ => none
+
 /-- `alpha = max(0, min(alpha, 1))` as Python evaluates it (`min` / `max` return the first argument
     unless a later one is strictly smaller / larger) -/
 def clampAlpha (a : Float) : Float :=
@@ -256,12 +358,13 @@ def handle (a : Args) : String :=
   | "convolve" =>
     let wshape := a.nats "wshape"
     let w := (a.floats "w").toArray
-    s!"spec={showFloats (convolveSpec dt m f wshape w)} model={showFloats (convolveModel dt m f wshape w)}"
+    s!"spec={showFloats (convolveSpec dt m f wshape w)} model={showFloats (convolveModel dt m f wshape w)} defined={showDefined (convolveDefined dt m f wshape w)} wdef={if weightsDefined dt w then 1 else 0}"
   | "convolve1d" =>
     let w := (a.floats "w").toArray
     let axis := normAxis shape.length (a.int "axis")
     let (model, fast) := convolve1dModel dt m f (a.nat "contig" == 1) axis w
-    s!"spec={showFloats (convolve1dSpec dt m f axis w)} model={showFloats model} path={if fast then "fast" else "generic"}"
+    let dfd := convolveDefined dt m f (embedShape f.shape.length axis w.size) w
+    s!"spec={showFloats (convolve1dSpec dt m f axis w)} model={showFloats model} path={if fast then "fast" else "generic"} defined={showDefined dfd} wdef={if weightsDefined dt w then 1 else 0}"
   | "fastwrites" =>
     -- the raw write sequence of the fast path on a 2-D image (columns per row, coverage)
     let w := (a.floats "w").toArray
@@ -270,11 +373,28 @@ def handle (a : Args) : String :=
     let out := applyWrites N0 N1 (fastWrites m f w N0 N1)
     let xs := fastXs w.size N1
     let vals := out.toList.map fun | some v => castTo dt v | none => 0
-    s!"xs={showNats xs} unwritten={(out.toList.filter Option.isNone).length} out={showFloats vals}"
+    let dfd := out.toList.map fun | some v => castDefined dt v | none => true
+    s!"xs={showNats xs} unwritten={(out.toList.filter Option.isNone).length} out={showFloats vals} defined={showDefined dfd}"
   | "laplacian" =>
     -- `laplacian_2D(array, alpha)` = `convolve(array as double, weights(alpha), mode='nearest')`
     let w := laplacianWeightsG Float.ofNat (clampAlpha ((a.floats "alpha").headD 0.2))
     s!"spec={showFloats (convolveSpec "f64" .nearest f [3, 3] w)} model={showFloats (convolveModel "f64" .nearest f [3, 3] w)}"
+  | "sobel" =>
+    -- `sobel(img, just_filter=True)`: `img -= img.min(); ptp = np.ptp(img); if ptp == 0: return img; img /= ptp`, then
+    -- the two 3×3 convolutions in `nearest` mode, squares, sum
+    let xs := f.data.toList
+    let mn := xs.foldl (fun a b => if b < a then b else a) (xs.headD 0)
+    let x1 := xs.map (· - mn)
+    let ptp := x1.foldl (fun a b => if a < b then b else a) 0
+    if ptp == 0 then s!"model={showFloats x1} ptp=0"
+    else
+      let g := mkImg shape (x1.map (· / ptp))
+      let vh := sobelLinearG fIsZero Float.ofInt g
+      s!"model={showFloats (sobelFilteredG fIsZero Float.ofInt g)} v={showFloats vh.1} h={showFloats vh.2} ptp=1"
+  | "dog" =>
+    let s1 := (a.floats "sigma").headD 2.0
+    let s2 := s1 * (a.floats "mult").headD 1.001
+    s!"model={showFloats (dogG fIsZero f (fun _ => gaussWeights s1 0) (fun _ => gaussWeights s2 0))}"
   | "gaussw" =>
     s!"w={showFloats (gaussWeights ((a.floats "sigma").headD 1.0) (a.nat "order")).toList}"
   | "gaussian1d" =>
@@ -285,7 +405,12 @@ def handle (a : Args) : String :=
   | "gaussian" =>
     let sig := a.floats "sigma"
     let ord := a.nats "order"
-    s!"model={showFloats (gaussianFilterModel dt m f true sig ord)}"
+    -- `sform=scalar` / `oform=scalar`: the caller passed a scalar (first entry); otherwise the sequence as sent
+    let sa : SeqArg Float := if a.str "sform" == "scalar" then .scalar (sig.headD 1.0) else .seq sig
+    let oa : SeqArg Nat := if a.str "oform" == "scalar" then .scalar (ord.headD 0) else .seq ord
+    match gaussianFilterPy dt m f sa oa with
+    | some r => s!"model={showFloats r}"
+    | none => "raises=ValueError"
   | k => s!"error=unknown-kind-{k}"
 
 end Mahotas.C06
